@@ -103,7 +103,8 @@ def check(ctx):
             init = lets.get(var)
             if init is None:
                 return False
-            return any(x.get("k") == "mcall" and x["method"] == "render" and x["args"] and lit_str(x["args"][0]) == tpl for x in walk(init))
+            # `self.render(tpl, &ctx)`, directly or through a private wrapper that is handed the template name (`self.render_or_empty(tpl, &ctx, ..)`)
+            return any(x.get("k") in ("mcall", "call") and any(lit_str(a_) == tpl for a_ in x.get("args", [])) for x in walk(init))
         def deep_mentions(e, name, owner, depth=0):
             """does expression e call `name`, directly, inside a closure, or through a private helper of the same type?"""
             for x in walk(e):
